@@ -193,6 +193,9 @@ func (e *Engine) Quiesce() int {
 
 // Spawn creates an engine thread running f.
 func (e *Engine) Spawn(name string, f func(t *Thread)) *Thread {
+	if DebugForks {
+		fmt.Printf("SPAWN %s from %s\n", name, e.lastFn)
+	}
 	t := &Thread{id: len(e.threads), name: name, e: e, wake: make(chan struct{}, 1)}
 	e.threads = append(e.threads, t)
 	parent := e.cur
